@@ -12,7 +12,7 @@
    the typing rules is the same as in Equivariance.typed_ren_all. *)
 Require Import Grits.Base Grits.ModeDefs Grits.Modes Grits.STypes Grits.Forms Grits.Subst Grits.Infer
                Grits.TcDeps Grits.Expand Grits.Tc Grits.TcTop Grits.spec.Typing Grits.proofs.TcLemmas
-               Grits.proofs.TypingVerdict Grits.proofs.Equivariance Grits.proofs.DeclPerm.
+               Grits.proofs.TypingVerdict Grits.proofs.Equivariance Grits.proofs.DeclPerm Grits.proofs.EquivarianceTypes.
 Require Import Coq.Sorting.Permutation.
 
 Theorem verdict_invariant_partial r r' rf rf' p : bijection r r' -> bijection rf rf' ->
@@ -31,59 +31,6 @@ Theorem verdict_invariant_perm p p' : decl_perm p p' -> (accepts p <-> accepts p
 Proof. intros H. rewrite !tc_verdict_alg. now apply typing_perm_iff. Qed.
 
 (* ---------------------------------------------------------------- the part not proved: types *)
-Fixpoint rent_ty (rt rl : string -> string) (t : sty) : sty :=
-  match t with
-  | TName x m => TName (rt x) m
-  | TUnit m => TUnit m
-  | TTensor a b m => TTensor (rent_ty rt rl a) (rent_ty rt rl b) m
-  | TLolli a b m => TLolli (rent_ty rt rl a) (rent_ty rt rl b) m
-  | TPlus bs m => TPlus (rent_brs rt rl bs) m
-  | TWith bs m => TWith (rent_brs rt rl bs) m
-  | TUp f t a => TUp f t (rent_ty rt rl a)
-  | TDown f t a => TDown f t (rent_ty rt rl a)
-  end
-with rent_brs (rt rl : string -> string) (b : brs) : brs :=
-  match b with BNil => BNil | BCons l a r => BCons (rl l) (rent_ty rt rl a) (rent_brs rt rl r) end.
-
-Definition rent_name (rt rl : string -> string) (n : name) : name :=
-  set_nty n (option_map (rent_ty rt rl) (nty n)).
-
-Fixpoint rent_form (rt rl : string -> string) (f : form) : form :=
-  let rn := rent_name rt rl in
-  match f with
-  | FSend a b c => FSend (rn a) (rn b) (rn c)
-  | FRecv p c fr k => FRecv (rn p) (rn c) (rn fr) (rent_form rt rl k)
-  | FSel a l c => FSel (rn a) (rl l) (rn c)
-  | FCase fr bs => FCase (rn fr) (rent_branches rt rl bs)
-  | FNew x b k => FNew (rn x) (rent_form rt rl b) (rent_form rt rl k)
-  | FClose c => FClose (rn c)
-  | FWait c k => FWait (rn c) (rent_form rt rl k)
-  | FFwd a b d => FFwd (rn a) (rn b) d
-  | FSplit x y fr k => FSplit (rn x) (rn y) (rn fr) (rent_form rt rl k)
-  | FCall fn args pt => FCall fn (map rn args) (option_map (rent_ty rt rl) pt)
-  | FCast a c => FCast (rn a) (rn c)
-  | FShift x fr k => FShift (rn x) (rn fr) (rent_form rt rl k)
-  | FDrop c k => FDrop (rn c) (rent_form rt rl k)
-  | FPrint l k => FPrint l (rent_form rt rl k)
-  end
-with rent_branches (rt rl : string -> string) (b : branches) : branches :=
-  match b with
-  | BrNil => BrNil
-  | BrCons l p k rest => BrCons (rl l) (rent_name rt rl p) (rent_form rt rl k) (rent_branches rt rl rest)
-  end.
-
-Definition rent_program (rt rl : string -> string) (p : program) : program :=
-  {| p_procs := map (fun q => {| pr_body := rent_form rt rl (pr_body q);
-                                 pr_providers := map (rent_name rt rl) (pr_providers q);
-                                 pr_type := option_map (rent_ty rt rl) (pr_type q) |}) (p_procs p);
-     p_assumed := map (rent_name rt rl) (p_assumed p);
-     p_funs := map (fun f => {| fn_name := fn_name f; fn_params := map (rent_name rt rl) (fn_params f);
-                                fn_body := rent_form rt rl (fn_body f);
-                                fn_type := option_map (rent_ty rt rl) (fn_type f);
-                                fn_explicit := option_map (rent_name rt rl) (fn_explicit f) |}) (p_funs p);
-     p_types := map (fun d => {| td_name := rt (td_name d); td_body := rent_ty rt rl (td_body d);
-                                 td_mode := td_mode d |}) (p_types p) |}.
-
 (* the full statement of the verdict half of C14 adds these two (not proved here): *)
 Definition verdict_invariant_types_statement : Prop :=
   forall rt rt' rl rl' p, bijection rt rt' -> bijection rl rl' -> (accepts p <-> accepts (rent_program rt rl p)).
